@@ -18,6 +18,12 @@ max(th, t_send) + max(keep-alive, send interval) + tau + d, the receiver's incom
 [(1, payload)]; at every event of an admissible schedule it is [] or that; the sender's RetrySender is done
 only after the delivery.
 
+(d) guaranteed sends issued from INSIDE callbacks (callback_worlds): the client's connect callback (the message shares its
+datagram with the CHALLENGE_RESP), the handler's connect / handle_message / update / disconnect events on the server; real
+UdpClients around the real server loop behind every front door (harness/srvx.py), loss and duplication in both directions, then
+healed; delivery is judged at EventHandler.handle_message and UdpClient.getMessages (not at incoming_messages); replayed on
+Server.v (unit srv_run).
+
 Oracle (implementation only), evaluated after the healed phase while the connection is open:
   * every guaranteed payload accepted by send was handed to the peer application (at least once);
   * nothing is left in the sender's outgoing queue and no guaranteed message is still pending
@@ -31,6 +37,7 @@ RULE = ("boundary sweep: every length around 0 / MAX_PAYLOAD_SIZE / k*MAX_FRAGME
 ASSUMPTIONS = ["fairness: after the faulty phase the network delivers every datagram and both sides keep ticking (healed phase)",
                "clock values are multiples of 1/1024 s"]
 TRUSTED = ["harness/connsim.py + netsim.py (virtual clock, datagram translation)",
+           "harness/srvsim.py + srvx.py (stepped real server loop behind every front door; ScriptedSocket stands for the OS socket under _UdpServer.run)",
            "harness/idlesim.py + livesim.py (joint timed schedules; the server sweep applied to one connection)"]
 
 T = S.TICKS
@@ -455,7 +462,7 @@ def run(run):
                         "guaranteed": [[r["len"], r["retry"]] for r in list(net.sent["client"].values())[:6]]})
     run.compare("conn_run", cases, impl, mod)
     live_sessions(run, rng, th)
-    callback_worlds(run, rng, 64 if th else 16)
+    callback_worlds(run, rng, 200 if th else 16)
     run.rules.append(CB_RULE)
     run.rules.append(RULE)
     run.rules.append(LIVE_RULE)
